@@ -83,13 +83,34 @@
        weightedParameterDerivative(x, 1/p(x))), for every batching, thread count and arrival order
        (C06_negative_log_likelihood_is_mean, C06_negative_log_likelihood_batching_invariant).  Not proved: that this vector is the
        derivative of the value w.r.t. the parameters in the analytic sense (needs log over R and the model contract).
+     * FOURTH ROUND.  (i) calling context (C06Ctx.v: the full-batch loop of ErrorFunctionImpl::eval / evalDerivative runs over batch RANGES,
+       which thread executes which range is an explicit assignment a : range index -> thread id, the merge events (thread id, partial
+       result) arrive in any order), axiom-free over Q: as coded -- every event added to the shared sum inside the critical region --
+       value and derivative are the mean per-element loss for EVERY assignment and arrival order (C06_calling_context_is_mean_loss),
+       hence independent of the assignment (C06_calling_context_assignment_irrelevant); the call from INSIDE an active parallel region
+       of k threads (SHARK_NUM_THREADS = k, inner team of one thread: the constant assignment, ranges in order) is literally the
+       computation of the call from serial code with k threads (C06_nested_call_is_toplevel_computation) and agrees with every thread
+       count and batching of the same elements (C06_nested_call_invariant).  The per-thread-slot variant (slot[thread] := partial,
+       slots summed afterwards -- the seeded change C06-8, not the code) is right when every range runs on its own thread
+       (C06_per_thread_slots_right_from_serial_code: why no test called from serial code can see it) and is REFUTED as soon as one
+       thread executes two ranges: concrete witness, the nested call (C06_per_thread_slots_refuted).
    PARTIAL (named *_partial): kept from round 1 for reference; superseded by the theorems of the second round
      (C06_huber_gradient_partial by C06_huber_outer_gradient*, C06_error_grad_is_param_grad_partial by *_generic).
    NOT PROVED: the one-output cross-entropy below the cut-off y x < -200 returns the asymptote -y x whose slope is -y, while the
      gradient code returns sigmoid(x) - c; the two differ by less than exp(-200) (invisible in double), so the derivative theorem is
      stated above the cut-off only.  Derivatives of the hinge-type, epsilon-insensitive and squared losses are stated as exact
      algebraic expansions with explicit remainders (first and second round), not with is_derive; AbsoluteLoss has no derivative call.
-   ONLY COMPARED / MONITORED by tools/c06.py (not proved): finite-difference gradient monitor on every loss and on models with
+   ONLY COMPARED / MONITORED by tools/c06.py (not proved): the calling-context stage (every ErrorFunction / AbstractLoss::eval(Data,Data) /
+     NegativeLogLikelihood / NegativeAUC / weighted ZeroOneLoss line evaluated by one thread of a parallel region of 2 / 3 threads and by
+     every thread at once on its own copy must equal the serial reference; the extracted errfn_ctx with the nested assignment is run
+     next to the C++ on the E, R, N lines) -- that the OpenMP runtime realises one of the modelled assignments, and thread safety of
+     concurrent evaluations on separate copies, are observed, not proved; nested parallelism switched ON is not exercised;
+     extreme arguments: the cross-entropy family (class labels and probability-vector labels, one and several outputs, double and
+     single precision outputs) on logits of magnitude 1e3, 1e5 and next to the exp overflow / underflow thresholds on both sides of the
+     label is compared with the exact loss and its exact derivative evaluated with 60 digits (everything finite, value = eval =
+     evalDerivative value, gradient = derivative, batch = sum), the float model is not a model of IEEE overflow; the other table losses
+     on the same magnitudes exactly against the Q model; NegativeLogLikelihood on probabilities around its clamp 1e-100;
+     finite-difference gradient monitor on every loss and on models with
      non-linear activations, floating-point rounding (the float instantiations are compared at 1e-12; NegativeAUC exactly when both
      class sizes are powers of two, else at 4e-14), NegativeAUC on scores equal to -DBL_MAX (the model represents the initial
      predictionPrev = -DBL_MAX by `None`) and the three-argument eval with an explicit column,
